@@ -47,9 +47,10 @@ GettableKinds == HeaderKindNames \ {"hend"}
 
 \* ---- HLoad ---------------------------------------------------------------------------------------
 Marker(i) == (i * 5 + 1) % 251
-MagicVariant(m) == CASE m = "ok" -> HdrMagic [] m = "bit" -> <<215, 80, 82, 232>> [] OTHER -> <<0, 0, 0, 0>>
+\* "swap": the magic in the other byte order (a big-endian image is not a Multiboot2 header)
+MagicVariant(m) == CASE m = "ok" -> HdrMagic [] m = "bit" -> <<215, 80, 82, 232>> [] m = "swap" -> <<232, 82, 80, 214>> [] OTHER -> <<0, 0, 0, 0>>
 HLoadParams == { [len |-> l, m |-> m, ck |-> ck, arch |-> a, null |-> FALSE]
-                 : l \in 0..MaxLen, m \in {"ok", "bit", "zero"}, ck \in {"ok", "plus", "minus", "zero"}, a \in {0, 4} }
+                 : l \in 0..MaxLen, m \in {"ok", "bit", "zero", "swap"}, ck \in {"ok", "plus", "minus", "zero", "min"}, a \in {0, 4} }
                \cup { [len |-> 16, m |-> "ok", ck |-> "ok", arch |-> 0, null |-> TRUE] }
 HLoadImage(p) ==
   LET magic == MagicVariant(p.m)
@@ -57,6 +58,7 @@ HLoadImage(p) ==
       ck == CASE p.ck = "ok" -> good
               [] p.ck = "plus" -> LimbAdd(good, [lo |-> 1, hi |-> 0])
               [] p.ck = "minus" -> LimbAdd(good, [lo |-> 65535, hi |-> 65535])
+              [] p.ck = "min" -> [lo |-> 0, hi |-> 32768]                      \* 0x8000_0000: the word whose negation overflows
               [] OTHER -> LimbZero
       hdr == magic \o U32Bytes(p.arch) \o U32Bytes(p.len) \o LimbBytes(ck)
       n == Max(16, p.len) IN
